@@ -20,12 +20,18 @@ package template
 //@   at call store#15 assert[the-template-of-this-file;C03] val == tn && typeis(soyfile.Body[i], *ast.TemplateNode) && unbox(soyfile.Body[i], *ast.TemplateNode) == val
 //@   at call mapupdate#0 assert[source-recorded-for-the-definition-lookups-return-(the-first);C19] !haskey(r.fileByTemplateName, key) && same(key, tn.Name) && same(val, soyfile.Text)
 //@   at call mapupdate#1 assert[file-recorded-for-the-definition-lookups-return-(the-first);C19] !haskey(m, key) && same(key, tn.Name) && same(val, soyfile.Name)
+//@   ghost seenT int = 0
+//@   ghost addedT int = 0
+//@   at call len#2 set seenT = seenT + 1
+//@   at call append#3 set addedT = addedT + 1
+//@   at call append#3 assert[the-template-list-grows-by-this-template;C07] sameslice(arg0, r.Templates)
+//@   ensures[every-template-of-the-file-is-registered-for-the-checks;C07] isnil(result) ==> seenT == addedT
 //@   at call store#9 assert[folded-header-param-keeps-its-name;C07] val == param.Name
 //@   at call store#10 assert[folded-header-param-keeps-its-optional-flag;C07] val == param.Optional
 //@   loop 0
 //@     invariant isnil(ns) && forall(k, 0, rangeindex + 1, typeis(soyfile.Body[k], *ast.SoyDocNode)) && -1 <= rangeindex
 //@   loop 1
-//@     invariant 0 <= i && len(soyfile.Body) > 0 && (typeis(soyfile.Body[0], *ast.SoyDocNode) || typeis(soyfile.Body[0], *ast.NamespaceNode)) && ns != nil && registryOK(r) && exists(k, 0, len(soyfile.Body), typeis(soyfile.Body[k], *ast.NamespaceNode) && unbox(soyfile.Body[k], *ast.NamespaceNode) == ns)
+//@     invariant 0 <= i && len(soyfile.Body) > 0 && (typeis(soyfile.Body[0], *ast.SoyDocNode) || typeis(soyfile.Body[0], *ast.NamespaceNode)) && ns != nil && registryOK(r) && seenT == addedT && exists(k, 0, len(soyfile.Body), typeis(soyfile.Body[k], *ast.NamespaceNode) && unbox(soyfile.Body[k], *ast.NamespaceNode) == ns)
 //@     decreases len(soyfile.Body) - i
 //@   loop 2
 //@     invariant len(headerParams) == rangeindex + 1 && rangeindex + 1 <= len(tn.Body.Nodes) && registryOK(r) && sdn != nil
